@@ -11,7 +11,9 @@ import (
 	"github.com/MichaelMure/git-bug/cache"
 	_select "github.com/MichaelMure/git-bug/commands/select"
 	"os"
+	"os/exec"
 	"path/filepath"
+	"regexp"
 	"strings"
 
 	"github.com/MichaelMure/git-bug/entities/bug"
@@ -105,12 +107,17 @@ type comment struct {
 }
 
 // Trace: vh ids-trace <out> <rounds>
+var gitbug string
+
 func Trace(args []string) {
 	out := hx.NewWriter(args[0])
 	defer out.Close()
 	rounds := 1
 	if len(args) > 1 {
 		fmt.Sscan(args[1], &rounds)
+	}
+	if len(args) > 2 {
+		gitbug = args[2]
 	}
 	for r := 0; r < rounds; r++ {
 		session(out, r)
@@ -125,9 +132,20 @@ func session(out *hx.Writer, round int) {
 	repo := hx.InitRepo(dir)
 	// identities with engineered prefixes: [X, shares 2 with X, shares 1 with X, unrelated]
 	var idents []*identity.Identity
+	firstId := ""
 	grindIdent := func(ok func(id string) bool) *identity.Identity {
 		for {
-			i, err := identity.NewIdentity(repo, fmt.Sprintf("user%d", len(idents)), "u@example.org")
+			// some names contain the first characters of the first identity's id: a name is not an id
+			name := fmt.Sprintf("user%d", len(idents))
+			switch {
+			case len(idents) == 3:
+				name = firstId[:7]
+			case len(idents) == 5:
+				name = "Ms " + firstId[:3]
+			case len(idents) == 6:
+				name = strings.ToUpper(firstId[:2])
+			}
+			i, err := identity.NewIdentity(repo, name, "u@example.org")
 			hx.Must(err)
 			if ok(i.Id().String()) {
 				hx.Must(i.Commit(repo))
@@ -137,6 +155,7 @@ func session(out *hx.Writer, round int) {
 		}
 	}
 	x := grindIdent(func(string) bool { return true }).Id().String()
+	firstId = x
 	grindIdent(func(id string) bool { return sharePrefix(id, x, 2+round%2) })
 	grindIdent(func(id string) bool { return sharePrefix(id, x, 1) })
 	grindIdent(func(id string) bool { return id[0] != x[0] })
@@ -554,4 +573,43 @@ func session(out *hx.Writer, round int) {
 		out.Put(map[string]interface{}{"ev": "Combined", "comment": cr.idx, "combined": digits(cr.combined)})
 	}
 	short(queryEntity, bugIds)
+	// the command line addressing an identity: `git-bug user user <prefix>` (declared as "user show") names what the prefix of an id resolves to
+	if gitbug == "" {
+		return
+	}
+	hx.Must(c.Close())
+	hx.Must(identity.SetUserIdentity(r5, idents[0]))
+	hex64 := regexp.MustCompile(`[0-9a-f]{64}`)
+	cli := func(p string) {
+		cmd := exec.Command(gitbug, "user", "user", p, "--field", "id") // the sub-command declared as "user show [USER_ID]" is named by the first word of that
+		cmd.Dir = dir
+		cmd.Env = append(os.Environ(), "HOME="+dir, "XDG_CONFIG_HOME="+filepath.Join(dir, "xdg"), "GIT_CONFIG_GLOBAL=/dev/null")
+		outb, err := cmd.CombinedOutput()
+		found := hex64.FindAllString(string(outb), -1)
+		switch {
+		case err == nil && len(found) == 1:
+			emit("identity", p, "found", []int{identIdx[found[0]]}, nil)
+		case err != nil && len(found) > 0:
+			var m []int
+			for _, id := range found {
+				m = append(m, identIdx[id])
+			}
+			emit("identity", p, "multiple", m, nil)
+		case err != nil && strings.Contains(string(outb), "doesn't exist"):
+			emit("identity", p, "notfound", nil, nil)
+		default:
+			emit("identity", p, "error:"+strings.TrimSpace(string(outb)), nil, nil)
+		}
+	}
+	for _, id := range []string{identIds[0], identIds[3]} {
+		for _, L := range []int{1, 2, 3, 4, 7, 16, 64} {
+			cli(id[:L])
+			if L < 64 {
+				cli(alter(id[:L]))
+			}
+		}
+	}
+	var err2 error
+	c, err2 = hx.OpenCache(r5) // for the deferred Close
+	hx.Must(err2)
 }
